@@ -567,6 +567,8 @@ class Interp:
     def truth_of(self, v):
         if isinstance(v, Const):
             return bool(v.v)
+        if isinstance(v, Lst) and getattr(v, "is_gen", False):
+            return True  # a generator object is truthy whatever it will yield
         if isinstance(v, (Tup, Lst)):
             return len(v.items) > 0
         if isinstance(v, Dct):
@@ -574,6 +576,27 @@ class Interp:
         if isinstance(v, (Obj, Cls, Fn, Mod)):
             if isinstance(v, Obj) and v.attrs.get("__falsy__") is not None:
                 return False
+            if isinstance(v, Obj) and v.cls is not None:
+                # a class that defines __bool__ or __len__ decides its own truthiness (an empty BLOB is falsy)
+                for dunder in ("__bool__", "__len__"):
+                    m_ = v.cls.find_method(dunder)
+                    if m_ is not None:
+                        saved = self.opts.get("inline")
+                        self.opts["inline"] = lambda fi, node, _s=saved: True if fi.cls is not None and fi.cls in v.cls.mro else (_s(fi, node) if _s else False)
+                        n_ev = len(self.events)
+                        try:
+                            r_ = self.run_function(Fn(m_, v), [], {})
+                        except (_Raise, Undecided):
+                            r_ = None
+                        finally:
+                            del self.events[n_ev:]
+                            if saved is None:
+                                self.opts.pop("inline", None)
+                            else:
+                                self.opts["inline"] = saved
+                        if isinstance(r_, Const) and isinstance(r_.v, (bool, int)):
+                            return bool(r_.v)
+                        return None
             return True
         if isinstance(v, Term):
             if v.op == "not":
@@ -640,8 +663,8 @@ class Interp:
                 try:
                     self.exec_block(fi.node.body, frame)
                 except _Return as r:
-                    return Lst(frame.yields) if is_gen else r.value
-            return Lst(frame.yields) if is_gen else Const(None)
+                    return self._gen_value(frame.yields) if is_gen else r.value
+            return self._gen_value(frame.yields) if is_gen else Const(None)
         finally:
             self.depth -= 1
             self.fn_stack.pop()
@@ -814,6 +837,12 @@ class Interp:
     st_AsyncFor = st_For
 
     def concrete_iter(self, v):
+        if isinstance(v, Lst) and getattr(v, "is_gen", False):
+            # a generator (expression or function) can be consumed once; a second traversal yields nothing
+            if getattr(v, "consumed", False):
+                return []
+            v.consumed = True
+            return list(v.items)
         if isinstance(v, (Tup, Lst)):
             return list(v.items)
         if isinstance(v, Obj) and isinstance(v.attrs.get("__iter__"), (Lst, Tup)):
@@ -1638,6 +1667,11 @@ class Interp:
             return f(l, r)
         return None
 
+    def _gen_value(self, items):
+        g_ = Lst(list(items))
+        g_.is_gen = True
+        return g_
+
     def _gen_frame(self, frame):
         f = frame
         while f is not None and not hasattr(f, "yields"):
@@ -1718,7 +1752,11 @@ class Interp:
                         out.append(self.eval(e.elt, sub))
             if kind == "dict":
                 return Dct(out)
-            return Lst(out) if kind in ("list", "gen") else Tup(out)
+            if kind == "gen":
+                g_ = Lst(out)
+                g_.is_gen = True
+                return g_
+            return Lst(out) if kind == "list" else Tup(out)
         item = self.sym_elem(itv, "i")
         if isinstance(g.target, (ast.Tuple, ast.List)) and not isinstance(item, Tup):
             self.emit("unpack", e, value=item, arity=len(g.target.elts), loop_target=True)
@@ -1760,7 +1798,11 @@ class Interp:
             for k_, v_ in out:
                 d.set(k_, v_)
             return d
-        return Lst(out) if kind in ("list", "gen") else Tup(out)
+        if kind == "gen":
+            g_ = Lst(out)
+            g_.is_gen = True
+            return g_
+        return Lst(out) if kind == "list" else Tup(out)
 
     def eval_nofork(self, e, frame):
         """Evaluate without forking on unknown sub-conditions (inside symbolic comprehensions)."""
